@@ -219,7 +219,7 @@ VETTED_GRAPH_ALGOS = {"petgraph::algo::toposort"}
 
 
 def error_exit_blocks(A, body):
-    """blocks that construct the error type or enter a panic"""
+    """blocks that construct the error type (directly or through a helper that returns it) or enter a panic"""
     out = set()
     for blk in body.blocks:
         if blk["cleanup"]:
@@ -230,6 +230,10 @@ def error_exit_blocks(A, body):
         t = blk["term"]["t"]
         if t["k"] == "call" and t["t"] < 0:
             out.add(blk["i"])
+        elif t["k"] == "call":
+            cb = A.facts.body(M.callee_name(t) or "")
+            if cb is not None and cb.locals[0].get("adt") == A.L.error_ty:
+                out.add(blk["i"])
     return out
 
 
@@ -468,6 +472,9 @@ def forall_loop(A, fact, must=False):
     binding block heads a natural loop whose only regular exit is the exhausted-iterator edge, and (if must) every path
     from the element edge back to the header passes through the fact (or the call that leads to it).  -> (ok, reason)"""
     lk = loop_of_key(A, fact)
+    if fact.get("total_iter") and (isinstance(lk, str) or len(lk[0].natural_loop(lk[2])) <= 1):
+        # emitted from inside extend(..)/for_each(..) over an unfiltered iterator: every element is visited by construction
+        return True, ""
     if isinstance(lk, str):
         return False, lk
     body, fid, head, fbb = lk
@@ -503,7 +510,10 @@ def forall_loop_taken(A, run, fact, must_bb=None):
     ok, why = forall_loop(A, fact)
     if not ok:
         return ok, why
-    body, fid, head, fbb = loop_of_key(A, fact)
+    lk_ = loop_of_key(A, fact)
+    if isinstance(lk_, str) or len(lk_[0].natural_loop(lk_[2])) <= 1:
+        return True, ""      # total iteration by construction (extend / for_each)
+    body, fid, head, fbb = lk_
     sw = body.term(head)["t"]
     loop = body.natural_loop(head)
     errs = error_exit_blocks(A, body) | residual_blocks(body)
@@ -822,6 +832,8 @@ def loop_conjunction(A, fn_name, is_target_write):
         if w["bb"] not in body.reachable(h):
             continue
         inner.append(h)
+    if not inner:
+        return find_form_conjunction(A, body, I, fr, w)
     flags_all, bad_all = set(), []
     passing = set(A.JS) if inner else set()
     for h in inner:
@@ -872,6 +884,61 @@ def loop_conjunction(A, fn_name, is_target_write):
                 gate_ok = False
     return dict(passing=passing, loops=len(inner), flags=len(flags_all), bad_flags=bad_all, gate_ok=gate_ok, site=A.site(w),
                 fn=fn_name)
+
+
+def find_form_conjunction(A, body, I0, fr0, w):
+    """the guard is `neighbours(..).find(|d| blocks(d))` (or any/all): a downstream passes iff the predicate can be false for it;
+    the write must be unreachable when the search is forced to find a blocker"""
+    from interp import Interp, Config
+    from protocol import forced_analysis
+    qs = [v for k, v in I0.rec.facts.items() if k[0] == "quantifier" and v.get("iter") is not None and v["iter"][1][0] == "nbr"
+          and v["iter"][1][3] == "Outgoing" and v["fid"] == fr0.fid]
+    if len(qs) != 1:
+        return None
+    q = qs[0]
+    tag = None
+    passing = set()
+    for d in A.JS:
+        I2 = Interp(A.facts, A.uni, A.layout, Config(label="FINDQ", cell_init={"nbr:Outgoing:nbr:Incoming:param": fin(A.L.jobstate, [d])}))
+        fr2, out2, col2 = I2.analyze(body)
+        q2 = [v for k, v in I2.rec.facts.items() if k[0] == "quantifier" and v["fid"] == fr2.fid and v["bb"] == q["bb"]]
+        if not q2:
+            passing.add(d)
+            continue
+        v = q2[0]
+        if v.get("find") or not v["all"]:
+            # find / any: the element blocks when the predicate is true
+            if v["may_false"] or not v["may_true"]:
+                passing.add(d)
+        else:
+            if v["may_true"]:
+                passing.add(d)
+    # gate: with the search forced to report a blocker the write is unreachable
+    import models
+
+    def force(kind):
+        orig = models.MODELS["std::iter::Iterator::" + kind]
+
+        def f(I_, state, frame, bi, t, args, span):
+            res = orig(I_, state, frame, bi, t, args, span)
+            if frame.fid != fr0.fid or bi != q["bb"]:
+                return res
+            keep = []
+            for (rv, st) in res:
+                if kind == "find":
+                    if rv[0] == "adt" and 1 in dict(rv[2]):
+                        keep.append((rv, st))
+                elif kind == "any":
+                    keep.append((TRUE_AV, st))
+                else:
+                    keep.append((FALSE_AV, st))
+            return keep or res
+        return f
+    from domain import TRUE as TRUE_AV, FALSE as FALSE_AV
+    kind = "find" if q.get("find") else ("all" if q["all"] else "any")
+    I3, fr3, out3, col3 = forced_analysis(A, body, {"std::iter::Iterator::" + kind: force(kind)})
+    ws3 = [v for k, v in I3.rec.facts.items() if k[0] == "write_state" and set(v["to"]) == set(w["to"])]
+    return dict(passing=passing, loops=1, flags=1, bad_flags=[], gate_ok=not ws3, site=A.site(w), fn=body.name)
 
 
 @prop("C13")
@@ -1110,7 +1177,8 @@ def check_C10(A, R, tier):
             early = [(b, s_) for b in loop for s_ in body.succs(b) if s_ not in loop and b != sw and body.term(s_)["k"] != "unreachable"]
             R.ob("R10.1", "abort_remaining | loop bb%d visits every element (no early exit)" % h, not early,
                  detail="loop can be left early: %r" % early[:2])
-    R.floor("R10.1", "loops in abort_remaining", nl, 1)
+    chains = len([v for v in run.by_kind("collect")]) + len([v for v in run.by_kind("extend")])
+    R.floor("R10.1", "loops / total iterator chains in abort_remaining", nl + chains, 1)
     ok_call, _ = must_pass_call(A, body, lambda nm: nm in A.signal_entry_names())
     R.ob("R10.1", "abort_remaining | the queued abort signals are processed before returning", ok_call,
          detail="a path returns without running the signal processor")
@@ -1318,10 +1386,14 @@ def gate_functions(A):
     C = A.classes()
     nonfin = frozenset(A.JS) - C["Finished"]
     out = {}
-    for b in A.evaluator_methods():
-        if b.locals[0]["s"] != "bool" or b.vis == "Public":
+    cands = [A.facts.bodies[n] for n in A.facts.order if A.facts.bodies[n].kind in ("AssocFn", "Fn")]
+    for b in cands:
+        if b.locals[0]["s"] != "bool" or b.vis == "Public" or b.derived or "tests::" in b.name:
             continue
         if not any(b.locals[i]["s"] == "usize" for i in range(1, b.arg_count + 1)):
+            continue
+        if not any(blk["term"]["t"]["k"] == "call" and (M.callee_of(blk["term"]["t"]) or ("",))[0].endswith("::neighbors_directed")
+                   for blk in b.blocks):
             continue
         res = loop_gate_summary(A, b)
         if res is not None:
@@ -1662,15 +1734,25 @@ def rule_undecided_downstream(A, R, rule):
         sw = b.term(h)["t"]
         somes = [s_ for s_ in b.succs(sw) if s_ in loop]
         sym = ("b", fr.fid, h, "nbr")
-        flags, bad = monotone_flags(A, b, h)
-        # initial values of the accumulators (constants assigned before the loop)
-        init = {}
+        # accumulators: named locals of a finite type (bool flag or enum answer) assigned both before and inside the loop;
+        # their initial values are read off the state in which the loop head is first reached
+        asg_in, asg_out = set(), set()
         for blk in b.blocks:
-            if blk["cleanup"] or blk["i"] in region:
+            if blk["cleanup"]:
                 continue
             for st in blk["stmts"]:
-                if st["k"] == "assign" and not st["p"]["p"] and st["p"]["l"] in flags and st["r"]["k"] == "use" and "const" in st["r"]["o"]:
-                    init[st["p"]["l"]] = ("fin", BOOL, frozenset([(1,) if st["r"]["o"]["const"] == "true" else (0,)]), ())
+                if st["k"] == "assign" and not st["p"]["p"]:
+                    (asg_in if blk["i"] in region else asg_out).add(st["p"]["l"])
+        accs = [l for l in (asg_in & asg_out) if b.local_names.get(l) is not None
+                and (b.locals[l]["s"] == "bool" or b.locals[l].get("adt") in A.uni.fin)]
+        col0 = {}
+        I.run(fr, ins[0].copy(), start=0, stops={h}, collect=col0)
+        first = col0["stops"].get(h)
+        init = {}
+        for l in accs:
+            v0 = first.locals.get((fr.fid, l)) if first is not None else None
+            if v0 is not None and v0[0] == "fin":
+                init[l] = v0
         flag_ty = [f["ty"]["adt"] for f in A.L.edge_fields if f["ty"].get("adt") in A.uni.fin]
         combos = [()]
         for ft in flag_ty:
